@@ -9,9 +9,10 @@ from common import *
 
 RULE = ("lattice configs from one PRNG: rank 1-4, sizes 2-4 (<= 81 vertices), units 1-3, random monotone axes, "
         "Edgeworth / trapezoid trusts of both directions (matching or not, monotone or free conditional axis, "
-        "shared conditionals), extra approximately-enforced families (unimodality, monotonic/range dominance, joint "
+        "shared conditionals, DUPLICATED identical trusts), extra approximately-enforced families (unimodality, monotonic/range dominance, joint "
         "monotonicity), bounds none/min/max/both, iterations {0,1,3,20}; kernels dyadic / int ties / wide / tiny / "
-        "huge / sorted / anti-sorted / feasible (projected twice). Non-trivial = the constraint moved the kernel or "
+        "huge / sorted / anti-sorted / feasible (additive or with trust-direction interaction terms; projected twice); "
+        "entry points lattice_lib.finalize_constraints, LatticeConstraints strict AND non-strict, Lattice.finalize_constraints. Non-trivial = the constraint moved the kernel or "
         "the kernel was feasible by construction; distinct = (entry point, config class, kernel kind, moved, hash).")
 ASSUMPTIONS = ["float64 kernels, tolerance 1e-9*scale for the model comparison and 1e-7*scale for the oracle",
                "joint unimodalities are configured alongside in ~20% of the extra-family configurations (LatticeConstraints / layer entries; lattice_lib.finalize_constraints does not take them)"]
@@ -38,11 +39,13 @@ def gen_cfg(rng, allow_extra=True):
         for _ in range(rng.choice([0, 1, 1, 2])):
           m, c = rng.choice(main_set), rng.choice(cond_set)
           d = direction.setdefault((m, c), rng.choice([1, -1]))
-          if (m, c, d) not in lst:
+          # an identical trust listed twice is ACCEPTED by verify_hyperparameters (only a second trust on
+          # the same pair with the opposite direction is rejected): duplicates are generated on purpose
+          if (m, c, d) not in lst or rng.random() < 0.5:
             lst.append((m, c, d))
       if ew and rng.random() < 0.4:   # matching trapezoid
         t = rng.choice(ew)
-        if t not in tz:
+        if t not in tz or rng.random() < 0.25:
           tz.append(t)
   uni = [0] * rank
   md, rd, jm = [], [], []
@@ -145,8 +148,9 @@ def real_call(entry, cfg, wf, iters):
             joint_monotonicities=[tuple(t) for t in cfg["jm"]] or None,
             joint_unimodalities=[(tuple(d), dr) for d, dr in cfg.get("ju", [])] or None,
             output_min=fl(cfg["lo"]), output_max=fl(cfg["hi"]))
-  if entry == "constraint":
-    cons = lattice_layer.LatticeConstraints(num_projection_iterations=iters, enforce_strict_monotonicity=True, **kw)
+  if entry in ("constraint", "constraint.nonstrict"):
+    cons = lattice_layer.LatticeConstraints(num_projection_iterations=iters,
+                                            enforce_strict_monotonicity=(entry == "constraint"), **kw)
     return cons(w).numpy()
   if entry == "layer.finalize":
     units = wf.shape[1]
@@ -210,6 +214,9 @@ def max_violation(cfg, t):
   return max(v)
 
 
+ctx_counts = {}
+
+
 def feasible_kernel(rng, cfg, units):
   """A kernel that satisfies EVERY configured constraint exactly: constant, or additive with slopes chosen
   to respect the configuration; verified with `max_violation` (falls back to constant)."""
@@ -229,12 +236,34 @@ def feasible_kernel(rng, cfg, units):
       free = [d for d in range(rank) if d not in blocked]
       for d in free:
         slopes[d] = room * Fraction(rng.randint(0, 4), 8) / (len(free) * (sizes[d] - 1))
-    col = []
-    for idx in itertools.product(*[range(s) for s in sizes]):
-      col.append(base + sum(slopes[d] * idx[d] for d in range(rank)))
+    # interaction terms a * i_main * i_cond in the direction of a trust (non-additive feasible kernels: the
+    # Edgeworth inequalities are strict-slack, trapezoid high side sloped), kept only if the independent
+    # checker finds the kernel feasible
+    inter = []
+    if (cfg["ew"] or cfg["tz"]) and rng.random() < 0.6:
+      for (m, c, dr) in set(cfg["ew"]) | set(cfg["tz"]):
+        if rng.random() < 0.7:
+          inter.append((m, c, dr * Fraction(rng.randint(1, 4), 16)))
+    def build(inter):
+      col = []
+      for idx in itertools.product(*[range(s) for s in sizes]):
+        col.append(base + sum(slopes[d] * idx[d] for d in range(rank)) + sum(a * idx[m] * idx[c] for m, c, a in inter))
+      return col
+    col = build(inter)
+    if inter:
+      # shift / scale into the bounds: an affine map with positive scale keeps every shape constraint
+      mn, mx = min(col), max(col)
+      if mx > mn and (mn < lo or mx > hi):
+        sc = min(Fraction(1), (hi - lo) / (mx - mn))
+        col = [lo + (x - mn) * sc for x in col]
+      t = np.array([float(x) for x in col]).reshape(sizes)
+      if max_violation(cfg, t) > 0:
+        col = build([])
     t = np.array([float(x) for x in col]).reshape(sizes)
     if max_violation(cfg, t) > 0:
       col = [base] * len(col)
+    elif inter and col != build([]):
+      ctx_counts["feasible.interaction"] = ctx_counts.get("feasible.interaction", 0) + 1
     cols.append(col)
   n = len(cols[0])
   return [[cols[u][i] for u in range(units)] for i in range(n)]
@@ -256,7 +285,9 @@ def oracle(ctx, entry, cfg, kind, wf, out, case, key):
     cs = [c for _, c, _ in cfg["tz"]]
     shared_conds = {c for c in cs if cs.count(c) > 1}
   any_mono = any(cfg["mono"])
-  for u in range(out.shape[1]):
+  for u in range(out.shape[1] if entry != "constraint.nonstrict" else 0):
+    # (non-strict mode, monotonic_at_every_step=False: only the bounds and feasible => unchanged are
+    # guaranteed after finitely many Dykstra passes — C01_constraint_nonstrict_bounds / _not_monotone)
     t = unit_tensor(out, cfg, u)
     if any_mono:
       for d in range(rank):
@@ -313,14 +344,15 @@ def one_case(ctx, entry, cfg, kind, w, iters, lines, pending):
     if entry == "lib.finalize":
       lines.append(model_line("lat.finalize", cfg, col))
     else:
-      lines.append(model_line("lat.constraint", cfg, col, iters, True))
+      lines.append(model_line("lat.constraint", cfg, col, iters, entry != "constraint.nonstrict"))
   pending.append((case, wf, out, err, units))
 
 
 def run(ctx):
   rng = ctx.rng
   lines, pending = [], []
-  plan = [("lib.finalize", ctx.n(160, 6000)), ("constraint", ctx.n(140, 6000)), ("layer.finalize", ctx.n(25, 600))]
+  plan = [("lib.finalize", ctx.n(160, 6000)), ("constraint", ctx.n(140, 6000)), ("layer.finalize", ctx.n(25, 600)),
+          ("constraint.nonstrict", ctx.n(40, 1500))]
   for entry, count in plan:
     for _ in range(count):
       cfg = gen_cfg(rng, allow_extra=(entry != "lib.finalize"))
@@ -334,6 +366,10 @@ def run(ctx):
         kind, w = "feasible", feasible_kernel(rng, cfg, units)
       iters = 20 if entry == "layer.finalize" else rng.choice([0, 1, 1, 3, 20])
       one_case(ctx, entry, cfg, kind, w, iters, lines, pending)
+  for k, v in ctx_counts.items():
+    for _ in range(v):
+      ctx.count(k)
+  ctx_counts.clear()
   finish(ctx, lines, pending)
 
 
